@@ -391,4 +391,5 @@ pub fn run(ctx: &mut Ctx) {
             }
         }
     }
+    crate::spaces::render_probes(ctx, &["var"]);
 }
